@@ -67,7 +67,9 @@ Print Assumptions C10_mirror_bisimulation.
     [srel pv pv Z pv_eq r1 r2] (Proofs/SimRelProofs.v) says: neither run crashed; after the last step both hold
     the same particles in the same order — same release row (tag), same pid, same liveness, values equal up
     to == on the rationals (position, depth class, age, scalar) —; the same number of particles was released;
-    and the two runs wrote the same number of records, each at the same step with the same (pid, row, values). *)
+    and the two runs wrote the same number of records, each at the same step with the same (pid, row, values).
+    The releaser of the set-up works in either mode ([s_cont]): discrete release of the table rows at their
+    times, or continuous release (discretize() on the frequency grid; tables satisfying C04's [cont_ok]). *)
 Theorem C10_closed_mirror : forall s, setup_ok s = true ->
   setup_ok (mirror_setup s) = true /\ srel pv pv Z pv_eq (m_run s) (m_run (mirror_setup s)).
 Proof. exact mirror_invariance. Qed.
@@ -79,6 +81,16 @@ Example C10_closed_ex :
   map (map (fun r : record => fst (fst r))) (s_files (mirror_setup ex_setup)) = [[7200; 6000]; [4800; 3600]] /\
   show_run (m_run (mirror_setup ex_setup)) = show_run (m_run ex_setup) /\
   length (recs (m_run ex_setup)) = 3%nat.
+Proof. vm_compute. repeat split. Qed.
+
+(** non-vacuity, continuous release: the forward set-up [ex_setup_cont] (release every 1200 s) and its mirror
+    image, a reversed set-up whose releaser discretizes with the negative frequency *)
+Example C10_closed_cont_ex :
+  s_cont ex_setup_cont = Some 1200 /\ setup_ok ex_setup_cont = true /\ setup_ok (mirror_setup ex_setup_cont) = true /\
+  s_tk (mirror_setup ex_setup_cont) = {| start := 0; stop := -3600; dt := 600; ref := 0; rev := true |} /\
+  map rt (s_tab (mirror_setup ex_setup_cont)) = [0; -2400; -2400; -3600] /\
+  show_run (m_run (mirror_setup ex_setup_cont)) = show_run (m_run ex_setup_cont) /\
+  map (fun r : rec pv => (rstep r, length (rrows r))) (recs (m_run ex_setup_cont)) = [(0, 1%nat); (2, 2%nat); (4, 5%nat)].
 Proof. vm_compute. repeat split. Qed.
 
 Example C10_ex :
